@@ -1483,6 +1483,8 @@ class Repository:
                     logger.info('Finished writing file %s', file_path)
                     with glock:
                         restore_path, metadata = files_metadata.pop(file_path)
+                    # The file may have existed (and been longer) before
+                    os.truncate(restore_path, files_sizes[file_path])
                     self.restore_metadata(restore_path, metadata)
                     finished_tracker.update()
 
@@ -1495,6 +1497,7 @@ class Repository:
         chunks_references = defaultdict(list)
         files_digests = {}
         files_metadata = {}
+        files_sizes = {}
         total_bytes = 0
 
         for snapshot_body in snapshots:
@@ -1532,6 +1535,7 @@ class Repository:
                     )
                     chunk_position += chunk_size
 
+                files_sizes[file_path] = chunk_position
                 total_bytes += chunk_position
 
         bytes_tracker = tqdm(
